@@ -323,7 +323,7 @@ impl futures::io::AsyncSeek for AShared {
 // than asked for (C13); serving the archive checks through such readers makes every property's check sensitive to
 // code that relies on a single read()/write() call transferring everything.
 // ---------------------------------------------------------------------------------------------
-const FRAG_CYCLE: [usize; 6] = [4096, 1, 100_000, 7, 65_536, 3];
+const FRAG_CYCLE: [usize; 7] = [3, 4096, 1, 100_000, 7, 65_536, 50];
 pub struct Frag {
     cur: std::io::Cursor<Vec<u8>>,
     calls: usize,
